@@ -27,6 +27,34 @@ theorem xden_scalar_dt (S : Schemas) (n : Nat) (v : Val) (cs : List Constraint) 
   simp only [xden, hh]
   cases j <;> simp
 
+/-! ### one step of `xden` (so that `simp` does not unfold the fuel further) -/
+
+theorem xden_array_step (S : Schemas) (k : Nat) (e : Ty) (m : Meta) (j : Json) :
+    xden true (k + 1) S (.array e m) j =
+      (!isByteElem e && match j with
+        | .null => m.nullable
+        | .arr xs => xs.all (xden true k S e)
+        | _ => false) := by simp only [xden]; cases j <;> rfl
+
+theorem xden_map_step (S : Schemas) (k : Nat) (v : Ty) (m : Meta) (j : Json) :
+    xden true (k + 1) S (.map stringTy v m) j =
+      (match j with
+        | .null => m.nullable
+        | .obj kvs => keysNodup kvs && kvs.all (fun kv => xden true k S v kv.2)
+        | _ => false) := by simp only [xden, stringTy]; cases j <;> rfl
+
+theorem xden_struct_step (S : Schemas) (k : Nat) (fs : List Field) (g : List Ty) (m : Meta) (j : Json) :
+    xden true (k + 1) S (.struct fs g none m) j = ((m.nullable && j.isNull) || xStructBody true (xden true k S) fs j) := by
+  simp only [xden]
+
+theorem xden_enum_step (S : Schemas) (k : Nat) (v0 : EnumVal) (vs : List EnumVal) (m : Meta) (j : Json) :
+    xden true (k + 1) S (.enum (v0 :: vs) m) j = ((m.nullable && j.isNull) || (denScalar v0.kind j && enumHas (v0 :: vs) j)) := by
+  simp only [xden]
+
+theorem xden_any_step (S : Schemas) (k : Nat) (j : Json) :
+    xden true (k + 1) S anyTy j = (anyExact j && wfDeep j) := by
+  simp [anyTy, xden]
+
 theorem hasHint_string (a : JAttrs) (b : Bool) :
     hasHint { nullable := b, dflt := a.dflt.toVal, hints := stringHints a } "string_format_datetime" = decide (a.format = "date-time") := by
   by_cases h : a.format = "date-time" <;> simp [hasHint, stringHints, h]
@@ -59,43 +87,48 @@ theorem walkUntypedConstant_shape {a : JAttrs} {addl : JAddl} {c : JV} {T : Ty}
 theorem walkEnum_shape {vs : List JV} {T : Ty} (hw : walkEnum vs = .ok T) :
     ∃ v0 rest, vs = v0 :: rest ∧
       T = .enum (vs.map fun v => { name := v.fmtV, value := unwrapJSONNumber v,
-                                   kind := (match v0 with | .str _ => "string" | _ => "int64") }) m0 := by
+                                   kind := enumKindOf v0 }) m0 := by
   cases vs with
   | nil => simp [walkEnum] at hw
   | cons v0 rest => simp [walkEnum] at hw; exact ⟨v0, rest, rfl, hw.symm⟩
 
+/-- IR scalar kind of a JSON Schema type name (`walkScalarDisjunction`) -/
+def jsKind (t : String) : String :=
+  if t = "boolean" then "bool" else if t = "string" then "string" else if t = "number" then "float64" else "int64"
+
+theorem jsKind_cases (t : String) : jsKind t = "bool" ∨ jsKind t = "string" ∨ jsKind t = "float64" ∨ jsKind t = "int64" := by
+  unfold jsKind; split
+  · simp
+  · split
+    · simp
+    · split <;> simp
+
+theorem scalarBranches_one (t : String) (ht : scalarTypeName t = true) :
+    scalarBranches [t] = .ok [.scalar (jsKind t) .nil [] m0] := by
+  simp only [scalarTypeName, Bool.or_eq_true, decide_eq_true_eq] at ht
+  rcases ht with ((h | h) | h) | h <;> subst h <;> simp [scalarBranches, obind, jsKind]
+
 theorem scalarBranches_pair {t1 t2 : String} {bs : List Ty}
     (hs : (t1 = "null" ∧ scalarTypeName t2 = true) ∨ (t2 = "null" ∧ scalarTypeName t1 = true))
     (hw : scalarBranches [t1, t2] = .ok bs) :
-    ∃ k, (k = "bool" ∨ k = "string" ∨ k = "float64" ∨ k = "int64") ∧
-      (bs = [nullTy, .scalar k .nil [] m0] ∨ bs = [.scalar k .nil [] m0, nullTy]) := by
-  have one : ∀ t, scalarTypeName t = true → ∃ k, (k = "bool" ∨ k = "string" ∨ k = "float64" ∨ k = "int64") ∧
-      scalarBranches [t] = .ok [.scalar k .nil [] m0] := by
-    intro t ht
-    simp only [scalarTypeName, Bool.or_eq_true, decide_eq_true_eq] at ht
-    rcases ht with ((h | h) | h) | h <;> subst h
-    · exact ⟨"bool", by simp, by simp [scalarBranches, obind]⟩
-    · exact ⟨"string", by simp, by simp [scalarBranches, obind]⟩
-    · exact ⟨"float64", by simp, by simp [scalarBranches, obind]⟩
-    · exact ⟨"int64", by simp, by simp [scalarBranches, obind]⟩
+    (t1 = "null" ∧ scalarTypeName t2 = true ∧ bs = [nullTy, .scalar (jsKind t2) .nil [] m0]) ∨
+    (t2 = "null" ∧ scalarTypeName t1 = true ∧ bs = [.scalar (jsKind t1) .nil [] m0, nullTy]) := by
   cases hs with
   | inl h =>
     obtain ⟨e, ht⟩ := h; subst e
-    obtain ⟨k, hk, hb⟩ := one t2 ht
-    refine ⟨k, hk, Or.inl ?_⟩
-    have : scalarBranches ["null", t2] = .ok [nullTy, .scalar k .nil [] m0] := by
-      rw [scalarBranches]; simp [hb, obind, nullTy]
-    rw [this] at hw; cases hw; rfl
+    have : scalarBranches ["null", t2] = .ok [nullTy, .scalar (jsKind t2) .nil [] m0] := by
+      rw [scalarBranches]; simp [scalarBranches_one t2 ht, obind, nullTy]
+    rw [this] at hw; cases hw
+    exact Or.inl ⟨rfl, ht, rfl⟩
   | inr h =>
     obtain ⟨e, ht⟩ := h; subst e
-    obtain ⟨k, hk, hb⟩ := one t1 ht
-    refine ⟨k, hk, Or.inr ?_⟩
     have h2 : scalarBranches ["null"] = .ok [nullTy] := by simp [scalarBranches, obind, nullTy]
-    simp only [scalarTypeName, Bool.or_eq_true, decide_eq_true_eq] at ht
-    have : scalarBranches [t1, "null"] = .ok [.scalar k .nil [] m0, nullTy] := by
-      rcases ht with ((h | h) | h) | h <;> subst h <;>
-        (rw [scalarBranches]; simp [h2, obind] ; simp [scalarBranches, obind] at hb; exact hb)
-    rw [this] at hw; cases hw; rfl
+    have ht' := ht
+    simp only [scalarTypeName, Bool.or_eq_true, decide_eq_true_eq] at ht'
+    have : scalarBranches [t1, "null"] = .ok [.scalar (jsKind t1) .nil [] m0, nullTy] := by
+      rcases ht' with ((h | h) | h) | h <;> subst h <;> (rw [scalarBranches]; simp [h2, obind, jsKind])
+    rw [this] at hw; cases hw
+    exact Or.inr ⟨rfl, ht, rfl⟩
 
 theorem view_notByte {pkg defs pair s T} (V : View pkg defs pair s T) : isByteElem T = false := by
   cases V with
@@ -432,13 +465,13 @@ theorem absent_ok {pkg defs S} (C : Ctx pkg defs S) {pair : Bool} {s : JS} {T : 
   | struct fs h1 h2 h3 h4 h5 h6 h7 h8 => exact up (absent_ok1 C (View.struct fs h1 h2 h3 h4 h5 h6 h7 h8) hr hnc k)
   | typeArr t1 t2 bs hra hp he hty hs hw =>
     rw [setNullable_disj]
-    obtain ⟨kd, hk, hbs⟩ := scalarBranches_pair hs hw
-    have hkb : kd ≠ "bytes" ∧ kd ≠ "any" ∧ kd ≠ "null" := by rcases hk with h | h | h | h <;> subst h <;> simp
-    have hnn : isNull (.scalar kd .nil [] m0) = false := by
-      rcases hk with h | h | h | h <;> subst h <;> rfl
-    cases hbs with
-    | inl e => rw [e, xden_pair_left S (k + 1) _ _ _ _ hnn]; exact null_scalar S k kd _ _ _ hkb.1 hkb.2.1
-    | inr e => rw [e, xden_pair_right S (k + 1) _ _ _ _ hnn]; exact null_scalar S k kd _ _ _ hkb.1 hkb.2.1
+    have key : ∀ t, xden true (k + 1) S (setNullable true (.scalar (jsKind t) .nil [] m0)) .null = true ∧
+        isNull (.scalar (jsKind t) .nil [] m0) = false := by
+      intro t
+      rcases jsKind_cases t with h | h | h | h <;> rw [h] <;> exact ⟨null_scalar S k _ _ _ _ (by simp) (by simp), rfl⟩
+    rcases scalarBranches_pair hs hw with ⟨_, _, e⟩ | ⟨_, _, e⟩
+    · rw [e, xden_pair_left S (k + 1) _ _ _ _ (key t2).2]; exact (key t2).1
+    · rw [e, xden_pair_right S (k + 1) _ _ _ _ (key t1).2]; exact (key t1).1
 
 /-! ### collections: the syntactic test over-approximates `isCollLike` of the built type -/
 
@@ -508,12 +541,12 @@ theorem collLike_sound {pkg defs pair s T} (V : View pkg defs pair s T) (h : isC
   | mapOf e Te hr he hnc hty hp ha => simp [jsCollLike, jsIsColl, hnc, hty, hp, ha, objectPath, addlIsSchema]
   | struct => simp [isCollLike] at h
   | typeArr t1 t2 bs hra hp he hty hs hw =>
-    obtain ⟨kd, hk, hbs⟩ := scalarBranches_pair hs hw
-    have hnn : isNull (.scalar kd .nil [] m0) = false := by
-      rcases hk with h | h | h | h <;> subst h <;> rfl
+    have hnn : ∀ t, isNull (.scalar (jsKind t) .nil [] m0) = false := by
+      intro t
+      rcases jsKind_cases t with h | h | h | h <;> rw [h] <;> rfl
     have h0 : isNull nullTy = true := rfl
-    cases hbs with
-    | inl e => subst e; simp [isCollLike, nonNullTypes, h0, hnn, Ty.isArray, Ty.isMap] at h
-    | inr e => subst e; simp [isCollLike, nonNullTypes, h0, hnn, Ty.isArray, Ty.isMap] at h
+    rcases scalarBranches_pair hs hw with ⟨_, _, e⟩ | ⟨_, _, e⟩
+    · subst e; simp [isCollLike, nonNullTypes, h0, hnn, Ty.isArray, Ty.isMap] at h
+    · subst e; simp [isCollLike, nonNullTypes, h0, hnn, Ty.isArray, Ty.isMap] at h
 
 end Cog.Front.JsonSchema
